@@ -4,6 +4,7 @@
 use std::io::{BufRead, Write};
 use std::panic::{catch_unwind, AssertUnwindSafe};
 
+mod bits;
 mod der;
 
 pub type I = i128;
@@ -34,6 +35,7 @@ fn panic_class(msg: &str) -> I {
 
 fn dispatch(op: I, args: &[I]) -> Vec<I> {
     match op {
+        1100..=1199 => bits::run(op, args),
         2000..=2099 => der::run(op, args),
         _ => vec![-1],
     }
